@@ -237,16 +237,10 @@ pub fn run_batch(cfg: Config) -> i32 {
     let stop_at = Arc::new(AtomicU64::new(u64::MAX));
     let sample_step = (total / 5).max(1);
 
-    // watchdog state: per worker (current run index + 1, start in ms since t0)
+    // observer state: per worker (current run index + 1, start in ms since t0)
     let progress: Arc<Vec<(AtomicU64, AtomicU64)>> =
         Arc::new((0..cfg.jobs).map(|_| (AtomicU64::new(0), AtomicU64::new(0))).collect());
-    let done = Arc::new(AtomicU64::new(0));
-    {
-        let progress = progress.clone();
-        let done = done.clone();
-        let ctx = ctx.clone();
-        std::thread::spawn(move || watchdog(&ctx, &progress, &done, t0, exhaustive));
-    }
+    let (tx, rx) = std::sync::mpsc::channel::<(usize, Option<Stats>)>();
 
     let mut handles = Vec::new();
     for w in 0..cfg.jobs {
@@ -254,10 +248,21 @@ pub fn run_batch(cfg: Config) -> i32 {
         let next_chunk = next_chunk.clone();
         let stop_at = stop_at.clone();
         let progress = progress.clone();
+        let tx = tx.clone();
         let h = std::thread::Builder::new()
             .name(format!("sim-{w}"))
             .stack_size(256 << 20)
             .spawn(move || {
+                // If this closure unwinds (a harness bug, never a simulated run), tell the collector.
+                struct Guard(usize, std::sync::mpsc::Sender<(usize, Option<Stats>)>, bool);
+                impl Drop for Guard {
+                    fn drop(&mut self) {
+                        if !self.2 {
+                            let _ = self.1.send((self.0, None));
+                        }
+                    }
+                }
+                let mut guard = Guard(w, tx.clone(), false);
                 let mut st = Stats::default();
                 let mut sw_idx = u64::MAX;
                 let mut sw = swarm_for(&ctx, 0);
@@ -331,22 +336,67 @@ pub fn run_batch(cfg: Config) -> i32 {
                 for k in 0..N_PROBES {
                     st.probes[k] += p[k];
                 }
-                st
+                guard.2 = true;
+                let _ = tx.send((w, Some(st)));
             })
             .expect("spawn worker");
         handles.push(h);
     }
+    drop(tx);
+    // Collector + wall-clock observer. The wall clock is read only here, never by a run: it cannot
+    // change what a run does, only bound how long we wait for code that loops without touching
+    // any seam (where the step clock cannot fire).
+    let limit_ms: u64 = std::env::var("SIM_STALL_MS").ok().and_then(|v| v.parse().ok()).unwrap_or(20_000);
     let mut st = Stats::default();
-    for h in handles {
-        match h.join() {
-            Ok(s) => st.merge(s),
-            Err(_) => {
+    let mut finished = vec![false; cfg.jobs];
+    let mut stalled: Vec<(usize, u64)> = Vec::new();
+    let mut stall_deadline: Option<Instant> = None;
+    loop {
+        if finished.iter().enumerate().all(|(w, f)| *f || stalled.iter().any(|s| s.0 == w)) {
+            break;
+        }
+        if let Some(d) = stall_deadline {
+            if Instant::now() > d {
+                break;
+            }
+        }
+        match rx.recv_timeout(std::time::Duration::from_millis(200)) {
+            Ok((w, Some(s))) => {
+                finished[w] = true;
+                st.merge(s);
+            }
+            Ok((_, None)) => {
                 eprintln!("harness error: a worker thread panicked outside a simulated run");
                 return 2;
             }
+            Err(std::sync::mpsc::RecvTimeoutError::Disconnected) => break,
+            Err(std::sync::mpsc::RecvTimeoutError::Timeout) => {}
+        }
+        let now = t0.elapsed().as_millis() as u64;
+        for (w, p) in progress.iter().enumerate() {
+            let run = p.0.load(Ordering::Relaxed);
+            let started = p.1.load(Ordering::Relaxed);
+            if run != 0 && !finished[w] && now.saturating_sub(started) > limit_ms && !stalled.iter().any(|s| s.0 == w) {
+                stalled.push((w, run - 1));
+                // stop handing out work; give the other workers a moment to finish their run
+                stop_at.fetch_min(run - 1, Ordering::SeqCst);
+                stall_deadline.get_or_insert(Instant::now() + std::time::Duration::from_secs(5));
+            }
         }
     }
-    done.store(1, Ordering::SeqCst);
+    let any_stalled = !stalled.is_empty();
+    for (_, i) in &stalled {
+        let sw = swarm_for(&ctx, *i);
+        let case = generate(&ctx, *i, &sw, exhaustive);
+        st.evaluations += 1;
+        st.violations.push((
+            *i,
+            case,
+            "HANG(watchdog)".to_string(),
+            format!("run {i} did not finish within {limit_ms} ms of wall time (no seam was touched, so the step clock could not fire)"),
+        ));
+    }
+    let _ = &handles;
     let wall = t0.elapsed().as_secs_f64();
 
     st.samples.sort_by_key(|s| s.0);
@@ -360,8 +410,15 @@ pub fn run_batch(cfg: Config) -> i32 {
         );
         exit = 2;
     }
+    // Prefer a violation the step clock or an oracle found (it minimises and replays in
+    // microseconds) over a wall-clock stall, then the lowest run index.
+    st.violations.sort_by_key(|v| (v.2 == "HANG(watchdog)", v.0));
     if let Some((i, case, class, detail)) = st.violations.first().cloned() {
-        let (min_case, min_detail, steps) = minimise::minimise(&case, &class);
+        let (min_case, min_detail, steps) = if class == "HANG(watchdog)" {
+            (case.clone(), detail.clone(), 0)
+        } else {
+            minimise::minimise(&case, &class)
+        };
         let path = format!("{}/replays/{}-{}-{}.json", cfg.verif_dir, cfg.prop, cfg.seed, i);
         let rj = replay_json(&cfg, i, &min_case, &class, &min_detail, Some((&case, &detail)), steps);
         let _ = std::fs::create_dir_all(format!("{}/replays", cfg.verif_dir));
@@ -415,43 +472,13 @@ pub fn run_batch(cfg: Config) -> i32 {
         st.evaluations as f64 / wall * 3600.0,
         zero
     );
-    exit
-}
-
-fn watchdog(ctx: &Ctx, progress: &[(AtomicU64, AtomicU64)], done: &AtomicU64, t0: Instant, exhaustive: u64) {
-    let limit_ms: u64 = std::env::var("SIM_STALL_MS").ok().and_then(|v| v.parse().ok()).unwrap_or(60_000);
-    loop {
-        std::thread::sleep(std::time::Duration::from_millis(250));
-        if done.load(Ordering::SeqCst) != 0 {
-            return;
-        }
-        let now = t0.elapsed().as_millis() as u64;
-        for p in progress {
-            let run = p.0.load(Ordering::Relaxed);
-            let st = p.1.load(Ordering::Relaxed);
-            if run != 0 && now.saturating_sub(st) > limit_ms && p.0.load(Ordering::Relaxed) == run {
-                let i = run - 1;
-                let sw = swarm_for(ctx, i);
-                let case = generate(ctx, i, &sw, exhaustive);
-                let class = "HANG(watchdog)".to_string();
-                let detail = format!("run {i} did not finish within {limit_ms} ms of wall time (no seam was touched, so the step clock could not fire)");
-                let path = format!("{}/replays/{}-{}-{}.json", ctx.cfg.verif_dir, ctx.cfg.prop, ctx.cfg.seed, i);
-                let rj = replay_json(&ctx.cfg, i, &case, &class, &detail, None, 0);
-                let _ = std::fs::create_dir_all(format!("{}/replays", ctx.cfg.verif_dir));
-                let _ = std::fs::write(&path, rj.to_pretty());
-                println!("violation class={class} run={i} seed={} detail={detail}", ctx.cfg.seed);
-                println!("VIOLATION property={} replay={path}", ctx.cfg.prop);
-                if ctx.cfg.write_evidence {
-                    let st = Stats { evaluations: i.max(1), ..Stats::default() };
-                    let v = J::obj().with("run", J::int(i)).with("class", J::str(&class)).with("detail", J::str(&detail)).with("replay", J::str(&path));
-                    let ev = evidence_json(&ctx.cfg, &st, i.max(1), 0, "", t0.elapsed().as_secs_f64(), v);
-                    let _ = std::fs::create_dir_all(format!("{}/evidence", ctx.cfg.verif_dir));
-                    let _ = std::fs::write(format!("{}/evidence/{}.json", ctx.cfg.verif_dir, ctx.cfg.prop), ev.to_pretty());
-                }
-                std::process::exit(1);
-            }
-        }
+    if any_stalled {
+        // a stalled worker thread can never be joined: leave the process
+        use std::io::Write;
+        let _ = std::io::stdout().flush();
+        std::process::exit(exit);
     }
+    exit
 }
 
 pub fn replay_json(
